@@ -562,6 +562,10 @@ class Run:
         rep.label["error_status"] = es
         rep.label["varbinds"] = [[ber.oid_text(o), v] for o, v, *_ in vbs]
         rep.label["custom"] = True
+        if item.get("unpredictable"):
+            # content whose acceptance nothing is claimed about (e.g. a malformed name): no verdict
+            rep.label["wf"] = None
+            rep.label["why"] = "unpredictable-content"
         if tag == snmp.PDU_REPORT:
             rep.label["report"] = item.get("report_name", "custom")
         return rep
